@@ -46,6 +46,40 @@ func genSchedCase(r *rand.Rand) schedCase {
 		}
 		c.Jobs = append(c.Jobs, schedJob{Name: j, Spec: a.render(r), AST: a, Zone: zname})
 	}
+	if r.Intn(3) == 0 {
+		// a window that CONTAINS a transition of the zone (the offset changes between two reported minutes), with a spec
+		// that fires on both sides of it: a few minutes of every hour, or one wall-clock time of the day after the change
+		for try := 0; try < 8; try++ {
+			tr := transitions(c.Jobs[0].Zone)
+			if len(tr) == 0 {
+				c.Jobs[0].Zone = zoneNames[r.Intn(len(zoneNames))]
+				continue
+			}
+			t := tr[len(tr)-1-r.Intn(min(len(tr), 60))]
+			if t < -7000000000 || t > 9000000000 {
+				continue
+			}
+			a := &AST{}
+			for f := 0; f < 5; f++ {
+				a.F[f] = []Item{{K: "star"}}
+			}
+			switch r.Intn(3) {
+			case 0:
+				a.F[0] = []Item{{K: "step", S: 7 + r.Intn(20)}}
+			case 1:
+				a.F[0] = []Item{{K: "num", A: r.Intn(60)}, {K: "num", A: r.Intn(60)}}
+			default:
+				after := time.Unix(t+int64(600+r.Intn(7200)), 0).In(loadZone(c.Jobs[0].Zone))
+				a.F[0] = []Item{{K: "num", A: after.Minute()}}
+				a.F[1] = []Item{{K: "num", A: after.Hour()}}
+			}
+			c.Jobs[0].AST, c.Jobs[0].Spec = a, a.render(r)
+			c.Kind = "sched-dst"
+			c.SinceNs = (t-int64(r.Intn(5400)))*1000000000 + int64(r.Intn(1000000000))
+			c.Period = int64(7200+r.Intn(4*3600)) * 1000000000
+			return c
+		}
+	}
 	loc := loadZone(c.Jobs[0].Zone)
 	day := genDay(r, c.Jobs[0].Zone, loc)
 	if day < -7000000000 || day > 9000000000 {
